@@ -470,11 +470,12 @@ sp_zgemv(char *trans, doublecomplex alpha, SuperMatrix *A, doublecomplex *x,
     doublecomplex temp, temp1;
     int_t lenx, leny, i, j, irow;
     int_t iy, jx, jy, kx, ky;
-    int_t notran;
+    int_t notran, conjtr;
     doublecomplex comp_zero = {0.0, 0.0};
     doublecomplex comp_one = {1.0, 0.0};
 
     notran = lsame_(trans, "N");
+    conjtr = lsame_(trans, "C");
     Astore = A->Store;
     Aval = Astore->nzval;
     
@@ -563,7 +564,8 @@ sp_zgemv(char *trans, doublecomplex alpha, SuperMatrix *A, doublecomplex *x,
 		temp = comp_zero;
 		for (i = Astore->colptr[j]; i < Astore->colptr[j+1]; ++i) {
 		    irow = Astore->rowind[i];
-		    zz_mult(&temp1, &Aval[i], &x[irow]);
+		    if ( conjtr ) { zz_conj(&temp1, &Aval[i]); zz_mult(&temp1, &temp1, &x[irow]); }
+		    else zz_mult(&temp1, &Aval[i], &x[irow]);
 		    z_add(&temp, &temp, &temp1);
 		}
 		zz_mult(&temp1, &alpha, &temp);
